@@ -191,6 +191,10 @@ class AliasMixin:
         # (in this example, X -> Z, Y -> Z)
         aliases = copy.deepcopy(self.ALIASES)
 
+        # Remove any variables that point to themselves (these would otherwise
+        # never drop out of the loop condition below)
+        aliases = {k: v for k, v in aliases.items() if k != v}
+
         while True:
             # Check for chained aliases by testing to see if there are any
             # shared names between the keys and values. If so, there is at
